@@ -327,6 +327,23 @@ def gen_join_vs_stop(rng):
     return {"family": "mixed", "cfg": cfg, "threads": [ctl, helper]}
 
 
+def gen_abort(rng):
+    """
+    A task that ends with a BaseException (sys.exit() in a task), alone in the pool: the worker thread that ran it ends
+    with it, as any thread does, and the pool's bookkeeping - the queue's count of unfinished tasks, join(), stop(), the
+    next start - must survive that. (With other tasks queued behind it the pool would have nobody left to serve them
+    until the next enqueue; the properties speak of failing tasks, not of tasks that kill their thread, so such
+    histories are not generated.)
+    """
+    mx = rng.choice([1, 2])
+    cfg = {"max": mx, "min": rng.randrange(0, mx + 1), "qsize": 0, "timeout": rng.choice([0.5, 2.0])}
+    to = cfg["timeout"]
+    ctl = [["start"], ["enq", "abort", 0], rng.choice([["join", to], ["res", 0, to], ["join", 4 * to]]), ["stop"]]
+    if rng.random() < 0.6:
+        ctl += [["start"], ["enq", "ret", 0], ["res", 1, to]]
+    return {"family": "mixed", "cfg": cfg, "threads": [ctl]}
+
+
 def gen_program(rng, focus=None, tier="quick"):
     pg = {"C09": 0.15, "C10": 0.4, "C11": 0.1}.get(focus, 0.25)
     k = rng.random()
@@ -334,6 +351,8 @@ def gen_program(rng, focus=None, tier="quick"):
         return gen_race(rng)
     if k > {"C11": 0.97}.get(focus, 0.99):
         return gen_join_vs_stop(rng)
+    if k > {"C11": 0.96}.get(focus, 0.985):
+        return gen_abort(rng)
     if k < pg:
         return gen_growth(rng, tier)
     if k < pg + 0.2:
@@ -527,7 +546,10 @@ def analyse(program, log, verdict, thread_errors=()):
             prop, clause = "C09", "termination"
         sig = "%s:%s" % (verdict.kind, "+".join(names) or "none")
         v.append(Violation(prop, clause, sig, "%s with operations pending %s: %s" % (verdict.kind, names, verdict.detail)))
+    aborts = any(o[0] == "enq" and o[1] == "abort" for t in program["threads"] for o in t)
     for tid, name, ex in thread_errors:
+        if ex.startswith("TaskAbort("):
+            continue  # a worker ends with the BaseException of the task it ran, as any thread does: not a crash of the pool
         v.append(Violation("C09", "worker-crash", ex.split("(")[0], "uncaught exception in simulated thread %s: %s" % (name, ex)))
 
     # ---- C09 ---------------------------------------------------------------
@@ -674,7 +696,7 @@ def analyse(program, log, verdict, thread_errors=()):
                 v.append(Violation("C11", "restart-fresh", "old-worker-serves-after-restart",
                                    "a worker started before stop() took a task after the pool was started again"))
                 break
-    if not faulty and mn > 0:
+    if not faulty and not aborts and mn > 0:  # (a worker that ended with its task's BaseException is replaced at the next enqueue)
         ev = []
         for w in h.workers.values():
             ev.append((w["start"], 1))
@@ -890,6 +912,18 @@ class PoolScenario(object):
     # -- shrinking -------------------------------------------------------------
 
     def shrink_candidates(self, program):
+        # a smaller program must stay inside what the generators produce: an untimed join() is only generated where the
+        # pool has been started (on a pool that was never started it waits for ever, legitimately)
+        def nstarts(q):
+            return sum(1 for t in q["threads"] for o in t if o[0] == "start")
+
+        untimed = any(o[0] == "join" and o[-1] is None for t in program["threads"] for o in t)
+        for q in self._shrink_candidates(program):
+            if untimed and nstarts(q) < nstarts(program):
+                continue
+            yield q
+
+    def _shrink_candidates(self, program):
         p = program
         nthreads = len(p["threads"])
         # drop a helper thread
